@@ -29,6 +29,10 @@ IMPLEMENTED = {
             'deterministic simulation: history simulator over callback create/call/drop operations with GC as an injected event, bulk growth across closure-page boundaries, injected mmap failure at a growth step (build-time shim), creations that fail after the closure was taken, gremlin finalizers creating callbacks during collection; address-distinctness and own-function oracles',
             'Seeded search over create/drop/call histories that cross several growth steps of the closure allocator and reuse freed closures, with resource faults placed inside growth; live addresses tracked through weak references must stay pairwise distinct and every call must run exactly its own function.',
             'The closure free list is process state: a replay re-executes the runs that preceded the failing one in its worker (recorded in the replay file). Only live callbacks are invoked.'),
+    'C37': ('H', 'exploration', 'DESIGN.md 3.9',
+            'deterministic simulation: history simulator with the dlclose event (explicit, repeated, or by injected garbage collection) placed at arbitrary points of an access history over a real compiled library in both ABI modes; dlopen/dlsym/dlclose of the backend logged by a build-time pass-through shim; model of per-library closed/fetched state and of the library memory',
+            'Seeded search over access histories with the close event injected anywhere; every access after the close must raise, no dlsym may reach a handle after its dlclose (observed at the libc seam), repeated close must be silent, and the still-mapped library memory must equal the model (a refused write must not land).',
+            'The harness keeps its own reference on the test library so a faulty access is observed, not suffered; outcomes the statement leaves open (re-fetch of a pre-fetched function, addressof, constants after close) are counted, never reported.'),
 }
 
 PENDING = {
